@@ -232,11 +232,21 @@ static void parse_event(const string& label, const string& text, size_t base) {
 static string gen_number(vt::Rng& r) {
   static const char* fixed[] = {"0", "-0", "5e-1", "1E+2", "1e2", "0.000001", "9223372036854775807", "-9223372036854775808", "1.5", "-2.25e10",
       "123456789012", "0.5", "1e-5", "12.50000000000000000000000", "2.71828182845904523536", "100.142857142857142857142857142857e-2",
-      "1.000000000000000000000001", "0.1e1", "3e0", "7E-3", "1e300", "4.5e-300", "999999.5", "0.9999995", "1234567"};
-  if (r.chance(50)) return fixed[r.below(25)];
+      "1.000000000000000000000001", "0.1e1", "3e0", "7E-3", "1e300", "4.5e-300", "999999.5", "0.9999995", "1234567",
+      // floats whose integer part does not fit 64 bits
+      "12345678901234567890.5", "2857142857142857142857e-2", "100000000000000000000.0", "-98765432109876543210e0",
+      "18446744073709551616.0", "9223372036854775808.0", "-9223372036854775809.5e-1", "340282366920938463463374607431768211456e-10"};
+  if (r.chance(50)) return fixed[r.below(sizeof(fixed) / sizeof(fixed[0]))];
   string s = r.chance(30) ? "-" : "";
-  s += to_string(r.below(r.chance(50) ? 100 : 1000000000));
-  if (r.chance(50)) {
+  bool wide = r.chance(12);
+  if (wide) {
+    s.push_back('1' + r.below(9));
+    for (int n = 18 + (int)r.below(14); n > 0; n--) s.push_back('0' + r.below(10));
+  } else {
+    s += to_string(r.below(r.chance(50) ? 100 : 1000000000));
+  }
+  if (wide && r.chance(50)) return s + (r.chance(50) ? "e" : "E") + (r.chance(50) ? "-" : "") + to_string(r.below(12));
+  if (wide || r.chance(50)) {
     s += ".";
     for (int n = 1 + (int)r.below(r.chance(10) ? 25 : 6); n > 0; n--) s.push_back('0' + r.below(10));
   }
